@@ -39,7 +39,7 @@ type Config struct {
 
 func (c *Config) defaults() {
 	if c.Solver == "" {
-		c.Solver = "z3"
+		c.Solver = "z3-new"
 	}
 	if c.TimeoutMs == 0 {
 		c.TimeoutMs = 60000
@@ -540,6 +540,8 @@ func Explore(prog *ssa.Program, entry *ssa.Function, cfg Config) (*Report, error
 				st.Unknown += sv.Stats.Unknown
 				st.Errors += sv.Stats.Errors
 				st.Time += sv.Stats.Time
+				st.ValueTime += sv.Stats.ValueTime
+				st.PopTime += sv.Stats.PopTime
 				if sv.Stats.MaxQuery > st.MaxQuery {
 					st.MaxQuery = sv.Stats.MaxQuery
 				}
@@ -611,6 +613,7 @@ func (w *worker) runPath(prefix []int) {
 
 	i := w.newInterp(prefix)
 	w.ts.NonRange = map[int]bool{}
+	w.ts.KnownHash = map[string]knownHash{} // per path: re-execution must be deterministic
 	w.solver.Reset()
 	w.solver.Push()
 	if w.cross != nil {
@@ -639,7 +642,11 @@ func (w *worker) runPath(prefix []int) {
 		}()
 		for _, p := range ex.cfg.InitPkgs {
 			if f := p.Func("init"); f != nil && len(f.Blocks) > 0 {
+				s0, t0 := i.steps, time.Now()
 				call(i, nil, 0, f, nil)
+				if initProf && npath == 1 {
+					fmt.Fprintf(os.Stderr, "[initprof] %-50s steps=%d time=%v\n", p.Pkg.Path(), i.steps-s0, time.Since(t0))
+				}
 			}
 		}
 		call(i, nil, 0, ex.entry, nil)
